@@ -359,5 +359,19 @@ fn pairs(out: &mut Out, rng: &mut Rng, n: usize, only: Option<&str>) {
 }
 
 pub fn run_c08(out: &mut Out, rng: &mut Rng, thorough: bool, only: Option<&str>) {
+    // the process's first comparison is of a *different* body size than the variant under test
+    // (family c02 has the same-size-first order): lazily resolved back ends must not depend on call order
+    if let Some(name) = only {
+        let body = |v: &&dyn Var| v.size() - v.ck_len() - 2;
+        let me = VARIANTS.iter().find(|v| v.name() == name).map(|v| body(v));
+        let mut sizes: Vec<usize> = VARIANTS.iter().map(|v| body(v)).filter(|b| Some(*b) != me).collect();
+        sizes.sort();
+        sizes.dedup();
+        for b in sizes.into_iter().rev() {
+            let o = *VARIANTS.iter().find(|v| body(v) == b).unwrap();
+            let (x, y) = (image(o, rng), image(o, rng));
+            emit_cmp(out, o, &x, &y);
+        }
+    }
     pairs(out, rng, if thorough { 3000 } else { 250 }, only);
 }
